@@ -1103,6 +1103,15 @@ func (e *specEnv) call(n *ast.CallExpr) (SVal, error) {
 			return SVal{}, err
 		}
 		return sv(Term{"(str.substr " + a.S + " " + b.S + " " + c.S + ")", SString}, types.Typ[types.String]), nil
+	case "replaceFirst":
+		// first occurrence only (strings.Replace(s, old, new, 1)); SMT-LIB str.replace has exactly this meaning
+		a, err := argT(0)
+		if err != nil {
+			return SVal{}, err
+		}
+		b, _ := argT(1)
+		c, _ := argT(2)
+		return sv(Term{"(str.replace " + a.S + " " + b.S + " " + c.S + ")", SString}, types.Typ[types.String]), nil
 	case "replaceAll":
 		a, err := argT(0)
 		if err != nil {
